@@ -72,6 +72,38 @@ static const XMLCh* scannerName(char c) {
     }
 }
 
+// one parser object, one or several documents (a HISTORY): request fields
+//   parse <api> <scanner> <val> <flags> <chunks> <docspec> <extspec>
+//   hist  <api> <scanner> <val> <flags> <chunks> <docspec1> <extspec1> <docspec2> <extspec2> ...
+// flag 'c' = cacheGrammarFromParse + useCachedGrammarInParse (grammar reuse across the history)
+struct Docs {
+    std::vector<std::vector<unsigned char> > doc, ext;
+    ChunkSpec chunks;
+};
+
+template <class F> static std::string runDocs(const Docs& d, F parseOne, bool hist) {
+    std::string out;
+    for (size_t i = 0; i < d.doc.size(); i++) {
+        gExt = d.ext[i];
+        ChunkSource src(d.doc[i], d.chunks, "doc.xml");
+        std::string r;
+        try {
+            long n = parseOne(src);
+            r = "ok " + std::to_string(n);
+        } catch (const OutOfMemoryException&) { r = "exc OutOfMemoryException";
+        } catch (const XMLException&) { r = "exc XMLException";
+        } catch (const SAXParseException&) { r = "exc SAXParseException";
+        } catch (const SAXException&) { r = "exc SAXException";
+        } catch (const DOMException&) { r = "exc DOMException";
+        } catch (const DOMLSException&) { r = "exc DOMLSException";
+        } catch (const std::exception& e) { r = std::string("FOREIGN std::exception ") + e.what();
+        } catch (...) { r = "FOREIGN unknown"; }
+        if (!hist) return r;
+        out += (i ? ";" : "") + r;
+    }
+    return "hist " + out;
+}
+
 static std::string doParse(const std::vector<std::string>& a) {
     const std::string& api = a[1];
     char sc = a[2][0];
@@ -79,85 +111,87 @@ static std::string doParse(const std::vector<std::string>& a) {
     const std::string& fl = a[4];
     bool ns = fl.find('n') != std::string::npos, schema = fl.find('s') != std::string::npos,
          full = fl.find('f') != std::string::npos, cont = fl.find('x') != std::string::npos,
-         loadDTD = fl.find('d') != std::string::npos, entRef = fl.find('e') != std::string::npos;
-    std::vector<unsigned char> data = expandDoc(a[6]);
-    gExt = expandDoc(a[7]);
-    ChunkSource src(data, parseChunks(a[5]), "doc.xml");
+         loadDTD = fl.find('d') != std::string::npos, entRef = fl.find('e') != std::string::npos,
+         cache = fl.find('c') != std::string::npos;
+    bool hist = a[0] == "hist";
+    Docs d;
+    d.chunks = parseChunks(a[5]);
+    for (size_t k = 6; k + 1 < a.size(); k += 2) { d.doc.push_back(expandDoc(a[k])); d.ext.push_back(expandDoc(a[k + 1])); }
     MemResolver res;
-    long nerr = 0;
-    try {
-        if (api == "sax") {
-            SAXParser p;
-            CountHandler h;
-            p.useScanner(scannerName(sc));
-            p.setValidationScheme(val == "always" ? SAXParser::Val_Always : val == "auto" ? SAXParser::Val_Auto : SAXParser::Val_Never);
-            p.setDoNamespaces(ns); p.setDoSchema(schema); p.setValidationSchemaFullChecking(full);
-            p.setExitOnFirstFatalError(!cont); p.setLoadExternalDTD(loadDTD);
-            p.setDocumentHandler(&h); p.setErrorHandler(&h); p.setEntityResolver(&res);
+    if (api == "sax") {
+        SAXParser p;
+        CountHandler h;
+        p.useScanner(scannerName(sc));
+        p.setValidationScheme(val == "always" ? SAXParser::Val_Always : val == "auto" ? SAXParser::Val_Auto : SAXParser::Val_Never);
+        p.setDoNamespaces(ns); p.setDoSchema(schema); p.setValidationSchemaFullChecking(full);
+        p.setExitOnFirstFatalError(!cont); p.setLoadExternalDTD(loadDTD);
+        p.cacheGrammarFromParse(cache); p.useCachedGrammarInParse(cache);
+        p.setDocumentHandler(&h); p.setErrorHandler(&h); p.setEntityResolver(&res);
+        return runDocs(d, [&](ChunkSource& src) { h.n = 0; p.parse(src); return h.n; }, hist);
+    } else if (api == "sax2") {
+        std::unique_ptr<SAX2XMLReader> p(XMLReaderFactory::createXMLReader());
+        CountHandler2 h;
+        p->setProperty(XMLUni::fgXercesScannerName, (void*)scannerName(sc));
+        p->setFeature(XMLUni::fgSAX2CoreValidation, val != "never");
+        p->setFeature(XMLUni::fgXercesDynamic, val == "auto");
+        p->setFeature(XMLUni::fgSAX2CoreNameSpaces, ns);
+        p->setFeature(XMLUni::fgXercesSchema, schema);
+        p->setFeature(XMLUni::fgXercesSchemaFullChecking, full);
+        p->setFeature(XMLUni::fgXercesContinueAfterFatalError, cont);
+        p->setFeature(XMLUni::fgXercesLoadExternalDTD, loadDTD);
+        p->setFeature(XMLUni::fgXercesCacheGrammarFromParse, cache);
+        p->setFeature(XMLUni::fgXercesUseCachedGrammarInParse, cache);
+        p->setContentHandler(&h); p->setErrorHandler(&h); p->setEntityResolver(&res);
+        return runDocs(d, [&](ChunkSource& src) { h.n = 0; p->parse(src); return h.n; }, hist);
+    } else if (api == "dom") {
+        XercesDOMParser p;
+        CountHandler h;
+        p.useScanner(scannerName(sc));
+        p.setValidationScheme(val == "always" ? XercesDOMParser::Val_Always : val == "auto" ? XercesDOMParser::Val_Auto : XercesDOMParser::Val_Never);
+        p.setDoNamespaces(ns); p.setDoSchema(schema); p.setValidationSchemaFullChecking(full);
+        p.setExitOnFirstFatalError(!cont); p.setLoadExternalDTD(loadDTD);
+        p.setCreateEntityReferenceNodes(entRef);
+        p.cacheGrammarFromParse(cache); p.useCachedGrammarInParse(cache);
+        p.setErrorHandler(&h); p.setEntityResolver(&res);
+        return runDocs(d, [&](ChunkSource& src) {
+            h.n = 0;
             p.parse(src);
-            nerr = h.n;
-        } else if (api == "sax2") {
-            std::unique_ptr<SAX2XMLReader> p(XMLReaderFactory::createXMLReader());
-            CountHandler2 h;
-            p->setProperty(XMLUni::fgXercesScannerName, (void*)scannerName(sc));
-            p->setFeature(XMLUni::fgSAX2CoreValidation, val != "never");
-            p->setFeature(XMLUni::fgXercesDynamic, val == "auto");
-            p->setFeature(XMLUni::fgSAX2CoreNameSpaces, ns);
-            p->setFeature(XMLUni::fgXercesSchema, schema);
-            p->setFeature(XMLUni::fgXercesSchemaFullChecking, full);
-            p->setFeature(XMLUni::fgXercesContinueAfterFatalError, cont);
-            p->setFeature(XMLUni::fgXercesLoadExternalDTD, loadDTD);
-            p->setContentHandler(&h); p->setErrorHandler(&h); p->setEntityResolver(&res);
-            p->parse(src);
-            nerr = h.n;
-        } else if (api == "dom") {
-            XercesDOMParser p;
-            CountHandler h;
-            p.useScanner(scannerName(sc));
-            p.setValidationScheme(val == "always" ? XercesDOMParser::Val_Always : val == "auto" ? XercesDOMParser::Val_Auto : XercesDOMParser::Val_Never);
-            p.setDoNamespaces(ns); p.setDoSchema(schema); p.setValidationSchemaFullChecking(full);
-            p.setExitOnFirstFatalError(!cont); p.setLoadExternalDTD(loadDTD);
-            p.setCreateEntityReferenceNodes(entRef);
-            p.setErrorHandler(&h); p.setEntityResolver(&res);
-            p.parse(src);
-            nerr = h.n;
-            // touch the tree
-            if (DOMDocument* d = p.getDocument()) { if (d->getDocumentElement()) (void)d->getDocumentElement()->getTextContent(); }
-        } else if (api == "domls") {
-            static const XMLCh ls[] = { 'L', 'S', 0 };
-            DOMImplementation* impl = DOMImplementationRegistry::getDOMImplementation(ls);
-            DOMLSParser* p = ((DOMImplementationLS*)impl)->createLSParser(DOMImplementationLS::MODE_SYNCHRONOUS, 0);
-            DomErr eh;
-            DOMConfiguration* c = p->getDomConfig();
-            c->setParameter(XMLUni::fgXercesScannerName, (void*)scannerName(sc));
-            c->setParameter(XMLUni::fgDOMValidate, val == "always");
-            c->setParameter(XMLUni::fgDOMValidateIfSchema, val == "auto");
-            c->setParameter(XMLUni::fgDOMNamespaces, ns);
-            c->setParameter(XMLUni::fgXercesSchema, schema);
-            c->setParameter(XMLUni::fgXercesSchemaFullChecking, full);
-            c->setParameter(XMLUni::fgXercesContinueAfterFatalError, cont);
-            c->setParameter(XMLUni::fgXercesLoadExternalDTD, loadDTD);
-            c->setParameter(XMLUni::fgDOMEntities, entRef);
-            c->setParameter(XMLUni::fgDOMErrorHandler, &eh);
-            c->setParameter(XMLUni::fgXercesEntityResolver, (XMLEntityResolver*)&res);
-            Wrapper4InputSource w(&src, false);
-            std::string r;
-            try {
-                DOMDocument* d = p->parse(&w);
-                if (d && d->getDocumentElement()) (void)d->getDocumentElement()->getTextContent();
-            } catch (...) { p->release(); throw; }
-            nerr = eh.n;
-            p->release();
-        } else return "bad-request";
-    } catch (const OutOfMemoryException&) { return "exc OutOfMemoryException";
-    } catch (const XMLException& e) { return "exc XMLException";
-    } catch (const SAXParseException&) { return "exc SAXParseException";
-    } catch (const SAXException&) { return "exc SAXException";
-    } catch (const DOMException&) { return "exc DOMException";
-    } catch (const DOMLSException&) { return "exc DOMLSException";
-    } catch (const std::exception& e) { return std::string("FOREIGN std::exception ") + e.what();
-    } catch (...) { return "FOREIGN unknown"; }
-    return "ok " + std::to_string(nerr);
+            if (DOMDocument* doc = p.getDocument()) { if (doc->getDocumentElement()) (void)doc->getDocumentElement()->getTextContent(); }
+            return h.n;
+        }, hist);
+    } else if (api == "domls") {
+        static const XMLCh ls[] = { 'L', 'S', 0 };
+        DOMImplementation* impl = DOMImplementationRegistry::getDOMImplementation(ls);
+        DOMLSParser* p = ((DOMImplementationLS*)impl)->createLSParser(DOMImplementationLS::MODE_SYNCHRONOUS, 0);
+        DomErr eh;
+        DOMConfiguration* c = p->getDomConfig();
+        c->setParameter(XMLUni::fgXercesScannerName, (void*)scannerName(sc));
+        c->setParameter(XMLUni::fgDOMValidate, val == "always");
+        c->setParameter(XMLUni::fgDOMValidateIfSchema, val == "auto");
+        c->setParameter(XMLUni::fgDOMNamespaces, ns);
+        c->setParameter(XMLUni::fgXercesSchema, schema);
+        c->setParameter(XMLUni::fgXercesSchemaFullChecking, full);
+        c->setParameter(XMLUni::fgXercesContinueAfterFatalError, cont);
+        c->setParameter(XMLUni::fgXercesLoadExternalDTD, loadDTD);
+        c->setParameter(XMLUni::fgXercesCacheGrammarFromParse, cache);
+        c->setParameter(XMLUni::fgXercesUseCachedGrammarInParse, cache);
+        c->setParameter(XMLUni::fgDOMEntities, entRef);
+        c->setParameter(XMLUni::fgDOMErrorHandler, &eh);
+        c->setParameter(XMLUni::fgXercesEntityResolver, (XMLEntityResolver*)&res);
+        std::string r;
+        try {
+            r = runDocs(d, [&](ChunkSource& src) {
+                eh.n = 0;
+                Wrapper4InputSource w(&src, false);
+                DOMDocument* doc = p->parse(&w);
+                if (doc && doc->getDocumentElement()) (void)doc->getDocumentElement()->getTextContent();
+                return eh.n;
+            }, hist);
+        } catch (...) { p->release(); throw; }
+        p->release();
+        return r;
+    }
+    return "bad-request";
 }
 
 int main() {
@@ -167,6 +201,7 @@ int main() {
         std::vector<std::string> a = splitWs(line);
         std::string r = "bad-request";
         if (a.size() == 8 && a[0] == "parse") r = doParse(a);
+        else if (a.size() >= 8 && a.size() % 2 == 0 && a[0] == "hist") r = doParse(a);
         std::cout << r << std::endl;
     }
     XMLPlatformUtils::Terminate();
